@@ -367,6 +367,16 @@ func genC12(r *Rng, tier string) *Plan {
 		}
 		if r.Chance(1, 4) {
 			run := g.Run(uint8(r.Intn(32)), "mid")
+			// an earlier run that did not get through: one of its writes fails or the process dies there
+			// (the outcomes of C15, here in the middle of a history of edits). What such a run leaves is a
+			// prefix of a run's writes plus an artifact cut short - both inside the property's quantifier
+			// (earlier runs, truncated artifacts) - and the history goes on editing afterwards.
+			if r.Chance(1, 3) {
+				kind := Pick(r, []string{"W1", "W2", "W3", "W4", "W5", "W6", "W6", "W6z", "W7"})
+				run.Faults = []FaultSpec{{Op: "write", Nth: r.Range(1, 4), Kind: kind, Off: Pick(r, []int{r.Intn(40), r.Intn(700), r.Intn(2500)})}}
+				g.P.Meta["faulted-mid-run"] = kind
+				continue
+			}
 			// an external edit landing between two file-system operations of this run
 			if r.Chance(1, 3) {
 				// (a complete foreign artifact dropped in while a run holds the old one in memory is a
@@ -437,6 +447,13 @@ func exploreC12(t *testing.T, seed uint64, idx int, tier string, sink *Sink) {
 				l = op.K
 			}
 			sink.Cell("op:" + l)
+		}
+	}
+	for _, rr := range w.Runs {
+		for _, wr := range rr.Writes {
+			if wr.Outcome != "ok" && wr.Outcome != "" {
+				sink.Cell("mid-run-fault-fired:" + wr.Outcome)
+			}
 		}
 	}
 	sink.Report(w)
